@@ -60,10 +60,10 @@ pub fn mask_case(max_dim: u32) -> BoxedStrategy<MaskCase> {
                 any::<bool>(),
                 proptest::collection::vec(any::<bool>(), 10),
                 any::<bool>(),
-                (0u8..5, 0u8..5),
+                (0u8..5, 0u8..5, 0u8..6),
             )
         })
-        .prop_map(|((bw, bh, focal, near, far, ortho), tris, mut cfg, target, bg, batch, cuts, shared, (fx, fy))| {
+        .prop_map(|((bw, bh, focal, near, far, ortho), tris, mut cfg, target, bg, batch, cuts, shared, (fx, fy, sw))| {
             cfg.depth_sort = 0;
             let aspect = bw as f32 / bh as f32;
             // twins: a triangle flagged true is followed by itself with two vertices exchanged
@@ -102,6 +102,8 @@ pub fn mask_case(max_dim: u32) -> BoxedStrategy<MaskCase> {
                 shader_mode: 1,
                 shared_verts: shared,
                 flip: [fx == 0, fy == 0],
+                swap_axes: sw == 0,
+                attr_mode: 0,
             };
             MaskCase { scene, view: view.iter().map(|t| t.map(xs)).collect(), ortho, calls }
         })
@@ -161,7 +163,7 @@ fn solo(c: &MaskCase, t: usize) -> Result<Solo, Fail> {
     let min_sub_area = subs.iter().map(|q| orient2(q[0], q[1], q[2]).abs() / 2.0).fold(f64::MAX, f64::min);
     let v = c.view[t].map(|p| p.map(|x| x.0 as f64));
     // the cull mode selects by ON-SCREEN winding: a viewport that mirrors exactly one axis reverses it
-    let parity = if c.scene.flip[0] != c.scene.flip[1] { -1 } else { 1 };
+    let parity = screen_parity(&c.scene);
     Ok(Solo { stream, n_sub: subs.len(), min_sub_area, facing: parity * facing(&v, c.ortho) })
 }
 
@@ -311,8 +313,8 @@ pub fn check_mask(c: &MaskCase, obs: &mut Obs) -> Check {
         obs.class("shader:discarding");
     }
     obs.class(if has_depth { "target:framebuf" } else { "target:colour-only" });
-    if sc.flip[0] != sc.flip[1] {
-        obs.class("viewport:mirrored-on-one-axis");
+    if screen_parity(sc) < 0 {
+        obs.class("to_screen:orientation-reversing(mirror or exchanged axes)");
     }
     obs.class(match c.calls.len() {
         1 => "calls:1",
@@ -398,6 +400,8 @@ pub fn check_solid(c: &SolidCase, obs: &mut Obs) -> Check {
         shader_mode: 1,
         shared_verts: false,
             flip: [false, false],
+            swap_axes: false,
+            attr_mode: 0,
     };
     let sc_back = mk(1);
     let sc_front = mk(2);
@@ -477,6 +481,117 @@ pub fn check_solid(c: &SolidCase, obs: &mut Obs) -> Check {
     Ok(())
 }
 
+// ------------------------------------------------------------------ culling far from the screen origin
+
+/// A target that stores nothing: it only counts (so screens of 16384 x 16384 pixels cost nothing).
+pub struct CountingTarget {
+    pub fragments: usize,
+    pub max_x: usize,
+    pub max_y: usize,
+}
+
+impl re::render::Target for CountingTarget {
+    fn rasterize<V: re::math::Vary, Fs: re::render::FragmentShader<V>>(&mut self, mut sl: re::render::raster::Scanline<V>, _fs: &Fs, _ctx: &re::render::Context) -> re::render::stats::Throughput {
+        let n = sl.fragments().take(1 << 20).count();
+        self.fragments += n;
+        self.max_x = self.max_x.max(sl.xs.end);
+        self.max_y = self.max_y.max(sl.y + 1);
+        re::render::stats::Throughput { i: n, o: n }
+    }
+}
+
+#[derive(Clone, Debug, Serialize, Deserialize)]
+pub struct BigScreenCase {
+    /// screen size (the viewport is the whole screen)
+    pub dims: [u32; 2],
+    /// screen position of the triangle's first vertex and the offsets of the other two, in pixels
+    pub at: [X; 2],
+    pub d1: [X; 2],
+    pub d2: [X; 2],
+}
+
+pub fn big_screen_case() -> BoxedStrategy<BigScreenCase> {
+    let dim = || prop_oneof![1 => Just(64u32), 2 => Just(1920u32), 1 => Just(1080u32), 2 => Just(4096u32), 1 => Just(16384u32), 3 => 256u32..8192];
+    (dim(), dim())
+        .prop_flat_map(|(w, h)| {
+            // bias towards the far corner, where products of coordinates are largest
+            let pos = move |n: u32| prop_oneof![2 => (0.9f32..1.0).prop_map(move |f| f * n as f32), 3 => (0.0f32..1.0).prop_map(move |f| f * n as f32)];
+            let off = || prop_oneof![3 => -0.8f32..0.8, 2 => -3.0f32..3.0, 1 => -40.0f32..40.0];
+            (Just([w, h]), [pos(w), pos(h)], [off(), off()], [off(), off()])
+        })
+        .prop_map(|(dims, at, d1, d2)| BigScreenCase { dims, at: xs(at), d1: xs(d1), d2: xs(d2) })
+        .boxed()
+}
+
+pub fn check_big_screen(c: &BigScreenCase, obs: &mut Obs) -> Check {
+    use re::geom::Vertex;
+    use re::math::{pt2, viewport};
+    use re::render::clip::ClipVec;
+    use re::render::raster::Frag;
+    use re::render::shader::Shader;
+    use re::render::{render, Context};
+    let [w, h] = c.dims;
+    let (wf, hf) = (w as f64, h as f64);
+    // clip-space (w = 1) coordinates of the three vertices, clamped inside the viewport
+    let px: [[f64; 2]; 3] = [
+        [c.at[0].0 as f64, c.at[1].0 as f64],
+        [(c.at[0].0 + c.d1[0].0) as f64, (c.at[1].0 + c.d1[1].0) as f64],
+        [(c.at[0].0 + c.d2[0].0) as f64, (c.at[1].0 + c.d2[1].0) as f64],
+    ];
+    let clipv: [[f32; 4]; 3] = px.map(|p| [(2.0 * p[0].clamp(0.0, wf) / wf - 1.0) as f32, (2.0 * p[1].clamp(0.0, hf) / hf - 1.0) as f32, 0.0, 1.0]);
+    // on-screen winding from the f32 inputs, in f64
+    let sp: [[f64; 2]; 3] = clipv.map(|v| [(v[0] as f64 + 1.0) / 2.0 * wf, (v[1] as f64 + 1.0) / 2.0 * hf]);
+    let area2 = orient2(sp[0], sp[1], sp[2]);
+    // screen positions are only resolved to ulp(coordinate): the winding of anything smaller is the rounding's choice
+    let quantum = (wf.max(hf) * 1.2e-7).max(1e-6);
+    let perim = dist2(sp[0], sp[1]) + dist2(sp[1], sp[2]) + dist2(sp[2], sp[0]);
+    if area2.abs() / 2.0 < 1e-3 || area2.abs() < 8.0 * quantum * perim {
+        obs.excluded("projected area below 1e-3 px^2 or below the resolution of f32 screen coordinates");
+        return Ok(());
+    }
+    // the view-space triangle is the NDC triangle itself (orthographic, eye looking along +z): front-facing iff
+    // (b-a)x(c-a) points towards the eye, i.e. has negative z — and the viewport (no mirror) keeps that orientation
+    let ndc: [[f64; 3]; 3] = clipv.map(|v| [v[0] as f64, v[1] as f64, 0.0]);
+    let fac = facing(&ndc, true);
+    if fac == 0 {
+        obs.excluded("edge-on");
+        return Ok(());
+    }
+    let verts_of = |order: [usize; 3]| -> Vec<Vertex<ClipVec, f32>> { order.iter().map(|&i| vertex(clipv[i].into(), 0.0f32)).collect() };
+    let shader = Shader::new(|v: Vertex<ClipVec, f32>, _: ()| v, |_f: Frag<f32>| re::math::rgba(1u8, 2, 3, 4));
+    let mut drawn = [[false; 2]; 2]; // [order][cull mode Back/Front]
+    for (oi, order) in [[0usize, 1, 2], [0, 2, 1]].iter().enumerate() {
+        for (ci, cull) in [re::render::ctx::FaceCull::Back, re::render::ctx::FaceCull::Front].iter().enumerate() {
+            let ctx = Context { face_cull: Some(*cull), ..Context::default() };
+            let mut tgt = CountingTarget { fragments: 0, max_x: 0, max_y: 0 };
+            let verts = verts_of(*order);
+            let r = catch(|| render([Tri([0, 1, 2])], &verts, &shader, (), viewport(pt2(0, 0)..pt2(w, h)), &mut tgt, &ctx));
+            if let Err(p) = r {
+                fail!("render-panic", "render panicked: {p}");
+            }
+            ensure!(tgt.max_x <= w as usize && tgt.max_y <= h as usize, "wrote-outside-viewport", "scanline reaches ({}, {}) on a {w}x{h} screen", tgt.max_x, tgt.max_y);
+            drawn[oi][ci] = ctx.stats.borrow().prims.o == 1;
+        }
+    }
+    // order 0 has facing `fac`; order 1 the opposite. Back culling keeps front faces (fac < 0), Front keeps back faces.
+    let want = [[fac < 0, fac > 0], [fac > 0, fac < 0]];
+    ensure!(
+        drawn == want,
+        "culled-the-wrong-order",
+        "screen {w}x{h}, triangle at {:?} px (signed area {:.4} px^2): drawn under [order abc: Back, Front; order acb: Back, Front] = {drawn:?}, on-screen winding says {want:?}",
+        sp,
+        area2 / 2.0
+    );
+    obs.class(if w.max(h) >= 4096 { "screen>=4096" } else if w.max(h) >= 1024 { "screen 1024..4095" } else { "screen<1024" });
+    obs.class(if area2.abs() / 2.0 < 0.5 { "area<0.5px^2" } else { "area>=0.5px^2" });
+    obs.nontrivial(hash_of(&(c.dims, c.at, c.d1, c.d2)));
+    if obs.wants_sample() {
+        let cc = c.clone();
+        obs.sample(|| json!({"case": cc, "signed_area_px2": area2 / 2.0}));
+    }
+    Ok(())
+}
+
 pub fn run(cx: &mut Ctx) {
     cx.assume("front face = the vertex order whose (b-a)x(c-a) normal points towards the eye — the winding convention of the crate's own solids (C15) and of the ctx.rs docs (backfaces point away from the camera)");
     cx.assume("scenes with an edge-on triangle or a clipped sub-triangle under 1e-3 px^2 are excluded when culling is on (its winding is numerically ambiguous)");
@@ -486,11 +601,17 @@ pub fn run(cx: &mut Ctx) {
     cx.prop_check("model", n, move || mask_case(md), |c, obs| check_mask(c, obs));
     let n = cx.n(6_000, 150_000);
     cx.prop_check("solid", n, solid_case, |c, obs| check_solid(c, obs));
+    let n = cx.n(200_000, 5_000_000);
+    cx.prop_check("cull-large-screen", n, big_screen_case, |c, obs| check_big_screen(c, obs));
 }
 
 pub fn replay(sub: &str, case: &Value) -> Check {
     let mut obs = Obs::new();
     obs.freeze();
+    if sub == "cull-large-screen" {
+        let c: BigScreenCase = serde_json::from_value(case.clone()).map_err(|e| Fail::new("bad-replay", e.to_string()))?;
+        return check_big_screen(&c, &mut obs);
+    }
     if sub == "solid" {
         let c: SolidCase = serde_json::from_value(case.clone()).map_err(|e| Fail::new("bad-replay", e.to_string()))?;
         check_solid(&c, &mut obs)
